@@ -1,5 +1,6 @@
 // positive example for the phase-loop / cycle-constructor rules (R01a-d, R02a-f): stand-ins named like the parmcb
 // functions with one defect per rule.  Uses the real ForestIndex / SpVecGF2 / convert_edges / sptrees.hpp.  Never executed.
+#include <algorithm>
 #include <list>
 #include <set>
 #include <tuple>
@@ -128,6 +129,10 @@ bool unsorted_lookup(const Graph &g, const WeightMap &weight_map) {
     std::vector<SPTree<Graph, WeightMap>> trees;
     std::vector<CandidateCycle<Graph, WeightMap>> cycles;
     const bool sorted_cycles = true;
+    // R01f: candidates removed by a predicate that does not identify the candidate
+    cycles.erase(std::unique(cycles.begin(), cycles.end(), [](const CandidateCycle<Graph, WeightMap> &a, const CandidateCycle<Graph, WeightMap> &b) {
+        return a.edge() == b.edge() && a.weight() == b.weight();
+    }), cycles.end());
     ShortestOddCycleLookup<Graph, WeightMap, false> lookup(g, weight_map, trees, cycles, sorted_cycles);
     return std::get<2>(lookup(std::set<Edge>()));
 }
